@@ -130,7 +130,7 @@ pub fn specs() -> Vec<CheckSpec> {
         CheckSpec {
             id: "C01",
             generate: gen_w1,
-            runs_quick: 200_000,
+            runs_quick: 400_000,
             runs_thorough: 12_000_000,
             rule: "seeded histories of create/place/create-and-place/cancel/process_event/set_time on one OrderBook<L> (tick 1..10, L 1..24, clock discipline); refinement against the reference engine after every operation plus a final drain probe. Non-trivial = at least one trade, one partial fill of a queue head and a same-price FIFO of depth >= 2 exercised; distinct = distinct digest of the complete final observation",
             finalize: None,
@@ -145,7 +145,7 @@ pub fn specs() -> Vec<CheckSpec> {
         CheckSpec {
             id: "C02",
             generate: gen_w1,
-            runs_quick: 150_000,
+            runs_quick: 300_000,
             runs_thorough: 8_000_000,
             rule: "histories incl. modifications, trading halts and snapshot reloads on OrderBook<L> and Market<A,L>; every published view recomputed from get_orders() alone after every operation (no model), mid-price included, non-crossing clause while trading was never disabled. Non-trivial = at least one trade and >= 5 applied operations; distinct = final observation digest",
             finalize: None,
@@ -160,7 +160,7 @@ pub fn specs() -> Vec<CheckSpec> {
         CheckSpec {
             id: "C03",
             generate: gen_w1,
-            runs_quick: 150_000,
+            runs_quick: 300_000,
             runs_thorough: 8_000_000,
             rule: "histories incl. trading modifications, halts and reset_trade_vol; model-free ledger audit after every operation (prefix immutability, per-trade field checks, per-order volume reconciliation, cumulative counter). Non-trivial = at least one trade and >= 5 applied operations",
             finalize: None,
@@ -175,7 +175,7 @@ pub fn specs() -> Vec<CheckSpec> {
         CheckSpec {
             id: "C04",
             generate: gen_w1,
-            runs_quick: 150_000,
+            runs_quick: 300_000,
             runs_thorough: 8_000_000,
             rule: "histories dominated by duplicate / stale requests (place, cancel, modify against orders in every status; market orders while halted); lifecycle transition relation on every order after every operation and full-snapshot equality around every redundant request. Non-trivial = at least one redundant request and one trade",
             finalize: None,
@@ -190,7 +190,7 @@ pub fn specs() -> Vec<CheckSpec> {
         CheckSpec {
             id: "C06",
             generate: gen_w1,
-            runs_quick: 150_000,
+            runs_quick: 300_000,
             runs_thorough: 8_000_000,
             rule: "populated queues then every modify shape (price None/each alphabet price x volume None/smaller/equal/larger) against orders in every status, continuations and a drain probe that turns queue order into trade order; reference engine + model-free modify invariants. Non-trivial = at least one in-place reduction and one re-queuing modification",
             finalize: None,
@@ -205,7 +205,7 @@ pub fn specs() -> Vec<CheckSpec> {
         CheckSpec {
             id: "C05",
             generate: gen_mixed,
-            runs_quick: 120_000,
+            runs_quick: 240_000,
             runs_thorough: 6_000_000,
             rule: "tie mode: histories on OrderBook<L> / Market<A,L> in which the clock is NOT advanced between queue insertions at one price (tie rate up to 80%, narrow alphabet share 60%), with cancels, modifications, aggressors, snapshot reloads and a final drain probe; all monitors of C01-C04/C06 run with the reference engine in FIFO tie semantics; a key-collision twin classifies divergences. Non-trivial = at least one queue insertion that shared (side, price, timestamp) with a resting order",
             finalize: None,
@@ -235,7 +235,7 @@ pub fn specs() -> Vec<CheckSpec> {
         CheckSpec {
             id: "C08",
             generate: gen_w3,
-            runs_quick: 60_000,
+            runs_quick: 200_000,
             runs_thorough: 3_000_000,
             rule: "sequences of steps on Env<L> / MarketEnv<A,L> with batches (0..12) of interacting new / cancel / modify instructions (several per order, targets created in the same step, duplicates, stale ids), steered and unsteered shuffles, halts; after each step the schedule is inferred from arrival / end timestamps and trades, and the belief set of reference-engine states consistent with everything observed is carried on; direct clauses (clock = start + step size, step volume = this step's trades) and a real plain OrderBook replaying the inferred schedule. Non-trivial = at least one step with trades and one step processed in a non-identity order",
             finalize: None,
@@ -250,7 +250,7 @@ pub fn specs() -> Vec<CheckSpec> {
         CheckSpec {
             id: "C09",
             generate: gen_w4,
-            runs_quick: 8_000,
+            runs_quick: 16_000,
             runs_thorough: 200_000,
             rule: "complete simulations (1..200 steps) of every composition of the built-in agent types, single- and multi-asset, combined through the derive macros; digest of all orders, trades, recorded level-2 history and per-step volumes compared across: two in-process runs of the shipped runner, the documented manual loop driven by the harness's seeded generator, a separate OS process under perturbations (progress bar on, shifted heap, other environment / cwd, stderr null / pipe / file, non-main thread), and (guaranteed-activity configurations) 16 distinct seeds not all equal. Non-trivial = at least 2 steps",
             finalize: None,
@@ -265,7 +265,7 @@ pub fn specs() -> Vec<CheckSpec> {
         CheckSpec {
             id: "C10",
             generate: gen_w3,
-            runs_quick: 60_000,
+            runs_quick: 200_000,
             runs_thorough: 3_000_000,
             rule: "interleavings of submissions and steps on Env<L> / MarketEnv<A,L>, the bulk of the instructions being ones that would trade / cancel / re-price at once if applied directly; the complete observation of the environment (live book, market data, orders, trades, every recorded series, cached level-2 snapshot) is compared before and after every single submission: nothing may change except one appended order with status New; cached level_2_data() equals the live book's at construction and after every step. Non-trivial = at least two steps and three instructions",
             finalize: None,
@@ -280,7 +280,7 @@ pub fn specs() -> Vec<CheckSpec> {
         CheckSpec {
             id: "C11",
             generate: gen_w3,
-            runs_quick: 60_000,
+            runs_quick: 200_000,
             runs_thorough: 3_000_000,
             rule: "step sequences on asymmetric books (bid and ask volumes, counts and depths differ by construction) for every compiled level count, each asset; after step k every recorded series must have k entries, entry k-1 must equal the value read from the live book (bid series <-> bid getters, level i <-> level i), earlier entries must be unchanged, per-step traded volume = sum of the trades appended / time-stamped in the step. Non-trivial = an asymmetric book recorded and >= 2 steps",
             finalize: None,
@@ -295,7 +295,7 @@ pub fn specs() -> Vec<CheckSpec> {
         CheckSpec {
             id: "C12",
             generate: gen_mixed,
-            runs_quick: 150_000,
+            runs_quick: 300_000,
             runs_thorough: 8_000_000,
             rule: "creation requests with arbitrary prices (on/off grid, extremes) through OrderBook and Market at random points of histories, off-grid re-price as a final operation; create Ok <=> price % tick == 0, full-snapshot equality around rejected creations, dense next id, all order prices on the grid, per-level data accounts for resting volume. Non-trivial = at least one off-grid creation request",
             finalize: None,
@@ -310,7 +310,7 @@ pub fn specs() -> Vec<CheckSpec> {
         CheckSpec {
             id: "C13",
             generate: gen_mixed,
-            runs_quick: 150_000,
+            runs_quick: 300_000,
             runs_thorough: 8_000_000,
             rule: "histories with the trading switch toggled at arbitrary points (also constructed halted), crossing placements and re-prices while halted, aggressors after resuming; reference engine with the flag + model-free clauses (no trade while halted, rejected market orders leave the book untouched, a toggle alone changes nothing). Non-trivial = at least one halt and one trade",
             finalize: None,
@@ -325,7 +325,7 @@ pub fn specs() -> Vec<CheckSpec> {
         CheckSpec {
             id: "C14",
             generate: gen_mixed,
-            runs_quick: 80_000,
+            runs_quick: 160_000,
             runs_thorough: 4_000_000,
             rule: "Market<A,L> driven directly (A = 1..4, per-asset tick sizes, colliding local ids) and MarketEnv<A,L> driven through shuffled batches across assets; per-asset stand-alone real OrderBooks receive that asset's operations at the same times (environment: the times inferred by the belief-set oracle); every per-asset and all-asset query must equal the twins' values in asset order, an operation on one asset must leave every other asset's observation unchanged. Non-trivial = trades and >= 5 operations (direct) or a step with trades replayed on the stand-alone books (environment)",
             finalize: None,
@@ -340,7 +340,7 @@ pub fn specs() -> Vec<CheckSpec> {
         CheckSpec {
             id: "C15",
             generate: gen_stat,
-            runs_quick: 3_600,
+            runs_quick: 7_200,
             runs_thorough: 45_000,
             rule: "fully observable batches (every position pinned by an arrival or end timestamp) of sizes 2,3,4,5,6,8,16,32,64; 50 steps per run; deterministic part: two environments given the same generator state and batch size but different instructions (new orders vs. a mix with cancels, other assets, other submission order) must process them in the same positions; statistical part over the whole batch: all n! cells for n<=6, position-by-item and pairwise-order tables for every size, each cell within the exact Bernstein bound with a union bound over all cells (false-alarm probability < 1e-9 per run). Non-trivial: every run",
             finalize: Some(crate::w3stat::finalize),
@@ -355,7 +355,7 @@ pub fn specs() -> Vec<CheckSpec> {
         CheckSpec {
             id: "C16",
             generate: gen_w4,
-            runs_quick: 20_000,
+            runs_quick: 80_000,
             runs_thorough: 1_500_000,
             rule: "simulations of the built-in agents in the manual loop, one update call per agent group at a time; the harness reads the instruction queue (verification hook) and the order list before and after every update and checks every created order and every cancellation (grid, range, side of the observed mid-price, volume, trader id, ownership, active when looked at), the deterministic corners of the activity rules (probability 0 / >= 1) and that nothing aborts; generator fault injection (boundary draws 0, all-ones, 1, top bit at sparse indices); tick 1..10, heavy-tailed price distributions (sigma up to 10), empty / one-sided / two-sided starting books, 1..200 steps. Non-trivial = at least 3 agent orders checked",
             finalize: None,
@@ -370,7 +370,7 @@ pub fn specs() -> Vec<CheckSpec> {
         CheckSpec {
             id: "C17",
             generate: gen_w4,
-            runs_quick: 20_000,
+            runs_quick: 100_000,
             runs_thorough: 1_500_000,
             rule: "one momentum agent group (single- and multi-asset) under mid-price paths imposed by a harness quoting client (rising, falling, mixed, flat; half-tick mids); the harness recomputes M and demand*tanh(scale*M)/n from the mids it observed; direction of every order must follow the sign of M, nothing when M = 0; at saturated demand (|p| >= 1) exactly n market (and, when order_ratio*|p| >= 1, n limit) orders on that side; mirrored run (path mirrored about a grid level, same seed, market orders only) must swap buys and sells step by step. Non-trivial = steps with positive and with negative momentum",
             finalize: None,
@@ -385,7 +385,7 @@ pub fn specs() -> Vec<CheckSpec> {
         CheckSpec {
             id: "C18",
             generate: gen_w5,
-            runs_quick: 2_500,
+            runs_quick: 6_000,
             runs_thorough: 150_000,
             rule: "call scripts (5..120 calls) over bourse.core.OrderBook (constructor, set_time, trading switches, place / cancel / modify, every getter, order_status, save_json_snapshot, order_book_from_json) and bourse.core.StepEnv (constructor with seed, place / cancel / modify, step, trading switches, every property and getter) on asymmetric books, executed call by call by the real extension in CPython and by the Rust core; return value or exception class and the complete observation compared after every call; faults: off-grid prices (ValueError), integers outside the target type in every integer position (2^32, 2^64, negative: OverflowError) which must leave the observation unchanged, snapshots written by Python loaded by Rust and vice versa (pretty / compact) and then driven on, a second interpreter under another PYTHONHASHSEED. Non-trivial = >= 5 calls and trades",
             finalize: None,
@@ -400,7 +400,7 @@ pub fn specs() -> Vec<CheckSpec> {
         CheckSpec {
             id: "C19",
             generate: gen_w5,
-            runs_quick: 2_500,
+            runs_quick: 6_000,
             runs_thorough: 150_000,
             rule: "StepEnv and StepEnvNumpy driven with the same seeded batches (asymmetric books: bid and ask volumes from disjoint ranges, several populated levels) for 1..8 steps; after every step each element of StepEnv.level_1_data_array / level_2_data_array and StepEnvNumpy.level_1_data / level_2_data is compared with the quantity the documentation assigns to its index (table transcribed by hand), obtained through independent getters of the Rust core; documented lengths 9 and 45; get_market_data of both environments must have exactly the documented keys bound to the matching Rust series; orders_to_dataframe / trades_to_dataframe (real data_processing.py on a stub pandas) must name column k after field k. Non-trivial = >= 3 layout calls on an asymmetric two-sided book",
             finalize: None,
